@@ -280,6 +280,9 @@ def c06_motion(w, k, op, before, sim, reports):
                 bl = [l.link_id for l in broute]; al = [l.link_id for l in route]
                 if al != bl[len(bl) - len(al):]:
                     out.append(('C06', 'remaining_route_not_suffix', {'vehicle': v.id, 'before': bl, 'after': al}))
+            if len(route) == 0 and len(broute) > 0 and v.geoid != broute[-1].end:
+                out.append(('C06', 'route_exhausted_away_from_destination', {'vehicle': v.id, 'position': v.geoid, 'destination': broute[-1].end,
+                                                                              'links_before': len(broute), 'odometer_delta': dodo}))
             if len(broute) > 0 and energy_of(bv) > 0 and energy_of(v) > 0:
                 progressed = len(route) < len(broute) or (len(route) > 0 and route[0].start != broute[0].start) or v.geoid != bv.geoid
                 if not progressed and broute[0].start != broute[-1].end:
